@@ -55,7 +55,7 @@ pub fn gcase(k: usize, env: &Env, allow_shards: bool) -> BoxedStrategy<GCase> {
         read_set(k, max_reads(env), 3),
         any::<bool>(),
         prop_oneof![6 => Just(1u8), 3 => Just(2u8), 1 => Just(3u8), 1 => Just(255u8)],
-        prop_oneof![Just(Entry3::Hash), Just(Entry3::SortedSlice), Just(Entry3::NoExts)],
+        prop_oneof![3 => Just(Entry3::Hash), 3 => Just(Entry3::SortedSlice), 3 => Just(Entry3::NoExts), 2 => Just(Entry3::SortedSliceRaw)],
         shards,
         any::<u16>(),
         any::<u64>(),
